@@ -70,7 +70,8 @@ TYPED_VALUES = {
     "floatRangeContent_NS": ["0.0", " 45 ", "-91", "90", "nan", "abc", None],
     "floatContent_Nonnegative": ["0", " 1.5 ", "-0.0", "-1", "inf", "x", None],
     "intContent": ["1", " 2", "x", "1.5", "-3", None],
-    "uriContent": ["https://a.org/x", "ftp://h", "http://", "mailto:x", " https://a.org ", "https://\u00e9.org", "\ud800"],
+    "uriContent": ["https://a.org/x", "ftp://h", "http://", "mailto:x", " https://a.org ", "https://\u00e9.org", "\ud800",
+                   "http://example.org/data[1].csv", "https://a.org/a b", "http://[::1", "https://a.org/%zz", "HTTP://A.ORG"],
 }
 
 
